@@ -1,10 +1,25 @@
-(* C02 (JSON core) — reading a valid object and writing it back yields a text that spells the
-   same ordered tree, and that text is a fixed point. Uniqueness of member names is needed only
-   by the row model (a duplicate name updates the first occurrence); the JSON layer keeps
-   duplicates in order. *)
+(* C02 — untemplated read-then-write is lossless and order preserving at all depths.
+
+   Two levels:
+   (a) JSON core (C02_roundtrip): reading a valid object and writing it back yields a text that
+       spells the same ordered tree, and that text is a fixed point. The JSON layer keeps
+       duplicate member names in order.
+   (b) the row / template model (theorems C02_untemplated_...): what jsonline does with a line when no
+       template is given — importer.GetRow on an empty template (CreateRowEmpty, then
+       row.UnmarshalJSON: nested objects become rows of Auto values), then exporter.Export under an
+       empty template (CreateRow: every key is undeclared, each cell becomes NewValueAuto(Raw());
+       row.MarshalJSON; one LF) — emits exactly write_jv of the tree the line spells, plus LF.
+       Uniqueness of member names at every depth ([uniq_jv]) is needed here: a duplicate name
+       updates the first occurrence in a row.
+   Fuel: the model's writers recurse by fuel; 4 units per nesting level suffice
+   (premise 4 * jdepth (JObj m) <= n) and the out-of-fuel outcome is then unreachable.
+   The template model does not represent the nesting limit of encoding/json's compact() (10000,
+   modelled by GoJsonMarshal.write_row); C02_untemplated_write_row states the link under that
+   limit. *)
 From Coq Require Import ZArith List Bool Lia.
-From JL.std Require Import GoBase GoStrconv GoJsonNum GoJson GoJsonStrict GoJsonMarshal.
-From JL.proofs Require Import JsonProofs.
+From JL.std Require Import GoBase GoVal GoStrconv GoJsonNum GoJson GoJsonStrict GoJsonMarshal.
+From JL.model Require Import Row Template TemplateJson.
+From JL.proofs Require Import JsonProofs UntemplatedBridge.
 Import ListNotations.
 Open Scope Z_scope.
 
@@ -14,3 +29,100 @@ Theorem C02_roundtrip :
                 /\ parse_top out = (m, true) /\ write_row (fst (parse_top out)) = Some out.
 Proof. exact roundtrip_row. Qed.
 Print Assumptions C02_roundtrip.
+
+(* json.Marshal of the value the reader builds for a tree (handledelim: rows of Auto values for
+   objects, slices for arrays, json.Number, string, bool, nil) writes what write_jv writes *)
+Theorem C02_marshal_rv_of_jv :
+  forall (O : oracles) (jfloat : bool -> Z -> option str) (jother : Z -> option str) d n,
+    uniq_jv d -> 4 * jdepth d < Z.of_nat n ->
+    marshal_rv O encode_string jfloat jother n (rv_of_jv d)
+    = match write_jv d with Some s => Ok s | None => Err ErrNoWrap end.
+Proof. exact marshal_rv_of_jv. Qed.
+Print Assumptions C02_marshal_rv_of_jv.
+
+(* importer.GetRow with an empty template *)
+Theorem C02_untemplated_get_row :
+  forall (O : oracles) n line m,
+    parse_top line = (m, true) -> NoDup (map fst m) ->
+    jl_get_row O n new_template line
+    = Ok (obj_row (map (fun kv => (fst kv, rv_of_jv (snd kv))) m)).
+Proof. exact untemplated_get_row. Qed.
+Print Assumptions C02_untemplated_get_row.
+
+(* exporter.Export with an empty template, on the row GetRow built *)
+Theorem C02_untemplated_export :
+  forall (O : oracles) (jfloat : bool -> Z -> option str) (jother : Z -> option str) n m,
+    uniq_jv (JObj m) -> 4 * jdepth (JObj m) <= Z.of_nat n ->
+    jl_export_bytes O jfloat jother n new_template
+      (RV (CRow (obj_row (map (fun kv => (fst kv, rv_of_jv (snd kv))) m))))
+    = match write_jv (JObj m) with Some s => Ok (s ++ [10]) | None => Err ErrNoWrap end.
+Proof. exact untemplated_export. Qed.
+Print Assumptions C02_untemplated_export.
+
+(* THE THEOREM: for every line b that spells an object whose objects have unique member names,
+   the untemplated pipeline hands the writer out ++ LF where out = write_jv of the tree; out
+   spells the same tree (same members, same order at every depth, strings / booleans / nulls
+   equal, number literals verbatim), contains no LF, and is a fixed point of the pipeline *)
+Theorem C02_untemplated_pipeline :
+  forall (O : oracles) (jfloat : bool -> Z -> option str) (jother : Z -> option str) n b m,
+    spells b (JObj m) -> uniq_jv (JObj m) -> 4 * jdepth (JObj m) <= Z.of_nat n ->
+    exists out,
+      write_jv (JObj m) = Some out
+      /\ jl_pipeline O jfloat jother n new_template new_template b = Ok (out ++ [10])
+      /\ spells out (JObj m)
+      /\ ~ In 10 out
+      /\ jl_pipeline O jfloat jother n new_template new_template out = Ok (out ++ [10]).
+Proof. exact untemplated_pipeline. Qed.
+Print Assumptions C02_untemplated_pipeline.
+
+(* the same for any line the reader accepts (U+FFFD repairs included): the pipeline writes the
+   tree the reader found, or fails exactly where write_jv fails *)
+Theorem C02_untemplated_pipeline_parsed :
+  forall (O : oracles) (jfloat : bool -> Z -> option str) (jother : Z -> option str) n line m,
+    parse_top line = (m, true) -> uniq_jv (JObj m) -> 4 * jdepth (JObj m) <= Z.of_nat n ->
+    jl_pipeline O jfloat jother n new_template new_template line
+    = match write_jv (JObj m) with Some s => Ok (s ++ [10]) | None => Err ErrNoWrap end.
+Proof. exact untemplated_pipeline_parsed. Qed.
+Print Assumptions C02_untemplated_pipeline_parsed.
+
+(* link with (a): under compact()'s nesting limit the pipeline emits write_row of what was read *)
+Theorem C02_untemplated_write_row :
+  forall (O : oracles) (jfloat : bool -> Z -> option str) (jother : Z -> option str) n b m,
+    spells b (JObj m) -> uniq_jv (JObj m) -> 4 * jdepth (JObj m) <= Z.of_nat n ->
+    Forall (fun kv => jdepth (snd kv) <= max_nesting) m ->
+    exists out,
+      write_row (fst (parse_top b)) = Some out
+      /\ jl_pipeline O jfloat jother n new_template new_template b = Ok (out ++ [10]).
+Proof. exact untemplated_pipeline_write_row. Qed.
+Print Assumptions C02_untemplated_write_row.
+
+(* the hypotheses are satisfiable by a nested document, and the model computes the claimed line:
+     {"a" : {"b":[1E+2, {"c":null, "d":[]}], "e":"x"},<TAB>"f":true, "g":-0.10}
+   -> {"a":{"b":[1E+2,{"c":null,"d":[]}],"e":"x"},"f":true,"g":-0.10} LF *)
+Example C02_untemplated_example :
+  let b := [123;34;97;34;32;58;32;123;34;98;34;58;91;49;69;43;50;44;32;123;34;99;34;58;110;117;108;108;44;32;34;100;34;58;91;93;125;93;44;32;34;101;34;58;34;120;34;125;44;9;34;102;34;58;116;114;117;101;44;32;34;103;34;58;45;48;46;49;48;125] in
+  let m := [([97], JObj [([98], JArr [JNum [49;69;43;50]; JObj [([99], JNull); ([100], JArr [])]]);
+                         ([101], JStr [120])]);
+            ([102], JBool true);
+            ([103], JNum [45;48;46;49;48])] in
+  let out := [123;34;97;34;58;123;34;98;34;58;91;49;69;43;50;44;123;34;99;34;58;110;117;108;108;44;34;100;34;58;91;93;125;93;44;34;101;34;58;34;120;34;125;44;34;102;34;58;116;114;117;101;44;34;103;34;58;45;48;46;49;48;125] in
+  spells b (JObj m) /\ uniq_jv (JObj m) /\ 4 * jdepth (JObj m) <= Z.of_nat 20
+  /\ write_jv (JObj m) = Some out
+  /\ forall O jfloat jother,
+       jl_pipeline O jfloat jother 20 new_template new_template b = Ok (out ++ [10])
+       /\ jl_pipeline O jfloat jother 20 new_template new_template out = Ok (out ++ [10]).
+Proof.
+  cbv zeta. split; [apply parse_sound_strict; vm_compute; reflexivity|].
+  split; [apply uniq_jvb_sound; vm_compute; reflexivity|].
+  split; [vm_compute; discriminate|].
+  split; [vm_compute; reflexivity|].
+  intros O jfloat jother. split; vm_compute; reflexivity.
+Qed.
+
+(* without unique names the row-level statement is false: {"a":1,"a":2} comes out as {"a":2} *)
+Example C02_duplicate_names_collapse :
+  forall O jfloat jother,
+    jl_pipeline O jfloat jother 20 new_template new_template
+      [123;34;97;34;58;49;44;34;97;34;58;50;125]
+    = Ok [123;34;97;34;58;50;125;10].
+Proof. intros O jfloat jother. vm_compute. reflexivity. Qed.
